@@ -303,6 +303,49 @@ def computed_matrix(ctx):
                         rep.fail('%s:computed-matrix:%s' % (sig, op), case, detail)
 
 
+def join_shapes(ctx):
+    """join specifications beyond one-aggregate-per-column: several target fields fed by one source column, renamed
+    copies, sources kept (source_delete=False) or deleted, every mode; all resources must still conform"""
+    rep = ctx.report
+    from dataflows.base.schema_validator import ValidationError
+    from tableschema.exceptions import TableSchemaException
+    src = [{'k': 'g1', 'day': datetime.date(2020, 1, 3), 'name': 'ann', 'n': 3},
+           {'k': 'g1', 'day': datetime.date(2020, 1, 9), 'name': 'bob', 'n': 4},
+           {'k': 'g2', 'day': datetime.date(2021, 5, 1), 'name': None, 'n': 0}]
+    tgt = [{'k': 'g1', 'other': 1}, {'k': 'g2', 'other': 2}, {'k': 'g0', 'other': 3}]
+    specs = {
+        'two-from-one-first-last': {'first_seen': {'name': 'day', 'aggregate': 'first'}, 'last_seen': {'name': 'day', 'aggregate': 'last'}},
+        'two-from-one-min-max': {'lo': {'name': 'n', 'aggregate': 'min'}, 'hi': {'name': 'n', 'aggregate': 'max'}},
+        'renamed-any': {'person': {'name': 'name'}},
+        'same-name-and-renamed': {'name': None, 'name_again': {'name': 'name', 'aggregate': 'last'}},
+        'three-from-one': {'a1': {'name': 'n', 'aggregate': 'sum'}, 'a2': {'name': 'n', 'aggregate': 'count'}, 'a3': {'name': 'n', 'aggregate': 'any'}},
+    }
+    for label, spec in specs.items():
+        for mode in ('inner', 'half-outer', 'full-outer'):
+            for sd in (True, False):
+                case = {'join-shape': label, 'mode': mode, 'source_delete': sd}
+                try:
+                    with quiet():
+                        res, dp, _ = Flow(copy.deepcopy(src), copy.deepcopy(tgt),
+                                          DF.join('res_1', ['k'], 'res_2', ['k'], copy.deepcopy(spec), mode=mode, source_delete=sd)).results()
+                except Exception as e:  # noqa
+                    cause = getattr(e, 'cause', e)
+                    rep.case('join-shape', case, nontrivial=False)
+                    if isinstance(cause, (ValidationError, TableSchemaException)):
+                        rep.fail('join-shape-fails:%s:%s' % (label, type(cause).__name__), case, repr(e)[:300])
+                    else:
+                        rep.hist('join_shape_rejected', '%s:%s' % (label, type(cause).__name__))
+                    continue
+                rep.case('join-shape', case)
+                for sig, detail in check_result(res, dp):
+                    rep.fail('%s:join-shape:%s' % (sig, label), case, detail)
+                # the kept source leaves as it came
+                if not sd:
+                    got = [f['name'] for f in dp.descriptor['resources'][0]['schema']['fields']]
+                    if got != ['k', 'day', 'name', 'n'] or [dict(r) for r in res[0]] != src:
+                        rep.fail('join-shape:kept-source-changed:%s' % label, case, {'fields': got})
+
+
 def probe(finding):
     if finding['signature'].startswith('row-has-undeclared-field:after:join'):
         with quiet():
@@ -325,6 +368,7 @@ def run(ctx):
     for idx in range(ctx.n(120, 2000)):
         pipeline_case(ctx, rng, idx)
     join_matrix(ctx)
+    join_shapes(ctx)
     computed_matrix(ctx)
     # the model side of the same steps
     P.run_cases(ctx, LAYER_A, None, ctx.n(400, 5000), salt='corr')
